@@ -578,24 +578,41 @@ fn add_function(cs: &mut Cs, b: &mut Base, body: &mut dyn FnMut(&mut Cs, &mut Ba
         blk.instructions.push(term);
         f.blocks.push(blk);
     }
+    // phis anywhere in the block (the statement puts no order on "result-producing instructions,
+    // phis and non-switch terminators"): in a third of the blocks the phis are re-inserted at
+    // random positions before the terminator, the order of the other instructions kept
+    for bl in f.blocks.iter_mut() {
+        if cs.below(3) != 0 {
+            continue;
+        }
+        let term = bl.instructions.pop();
+        let (phis, mut rest): (Vec<_>, Vec<_>) = bl.instructions.drain(..).partition(|i| i.class.opcode == spirv::Op::Phi);
+        for p in phis {
+            let at = cs.below(rest.len() + 1);
+            rest.insert(at, p);
+        }
+        bl.instructions = rest;
+        bl.instructions.extend(term);
+    }
     // loop-carried values: some phi sources name a result defined LATER in the same function
     // (a forward reference, legal for phis only; every counting loop has one). Results lifted
     // earlier are not used: the lifter asserts that those have the phi's type.
     {
-        let mut later: Vec<Vec<u32>> = vec![]; // per block: non-phi result ids of this block and the following ones
-        let per_block: Vec<Vec<u32>> = f
+        let flat: Vec<(usize, usize, bool, Option<u32>)> = f
             .blocks
             .iter()
-            .map(|bl| bl.instructions.iter().filter(|i| i.class.opcode != spirv::Op::Phi).filter_map(|i| i.result_id).collect())
+            .enumerate()
+            .flat_map(|(bi, bl)| bl.instructions.iter().enumerate().map(move |(ii, i)| (bi, ii, i.class.opcode == spirv::Op::Phi, i.result_id)))
             .collect();
-        for bi in 0..f.blocks.len() {
-            later.push(per_block[bi..].iter().flatten().copied().collect());
-        }
         for (bi, bl) in f.blocks.iter_mut().enumerate() {
-            for i in bl.instructions.iter_mut().filter(|i| i.class.opcode == spirv::Op::Phi) {
+            for (ii, i) in bl.instructions.iter_mut().enumerate() {
+                if i.class.opcode != spirv::Op::Phi {
+                    continue;
+                }
+                let later: Vec<u32> = flat.iter().filter(|(b2, i2, is_phi, _)| !*is_phi && (*b2, *i2) > (bi, ii)).filter_map(|x| x.3).collect();
                 for k in (0..i.operands.len()).step_by(2) {
-                    if !later[bi].is_empty() && cs.bool() {
-                        i.operands[k] = Operand::IdRef(later[bi][cs.below(later[bi].len())]);
+                    if !later.is_empty() && cs.bool() {
+                        i.operands[k] = Operand::IdRef(later[cs.below(later.len())]);
                     }
                 }
             }
@@ -931,7 +948,7 @@ pub fn finish(ctx: &Ctx) -> i32 {
     crate::engine::finish(
         ctx,
         Finish {
-            rule: "modules generated inside the stated subset: header, 1-3 capabilities, one memory model; declared-before-use void/bool/int/float, vector, matrix, pointer, array (length = earlier 32-bit constant), struct and function types; 32-bit OpConstant, bool/null constants and OpConstantComposite; 1-3 functions of 1-3 blocks with phis (sources unknown to the lifter), result-producing instructions drawn from the pinned list of opcodes the lifter handles (golden/lift_subset.json, every one of them x4 in the sweep) and non-switch terminators. Oracle: convert is Ok; version word, capabilities in order and memory model preserved; the Debug rendering of types / constants / ops / function blocks is read by a small Debug-syntax reader: one entry per declaration / per result-producing non-phi block instruction, in order, entry head = the opcode's name, value atoms positionally equal to the DR operands (an id may appear as the raw word or as Token(k) with k the index of the referenced type / constant declaration); control mask, result type token, block count, each block's terminator and phi result types as block arguments. non-trivial = module with >= 4 types, a composite, a function with >= 2 blocks, a phi and >= 4 lifted operations (sweep: every case); distinct = hash of the rendered module.",
+            rule: "modules generated inside the stated subset: header, 1-3 capabilities, one memory model; declared-before-use void/bool/int/float, vector, matrix, pointer, array (length = earlier 32-bit constant), struct and function types; 32-bit OpConstant, bool/null constants and OpConstantComposite; 1-3 functions of 1-3 blocks with phis (at the start of the block or anywhere before the terminator; sources unknown to the lifter or results defined later in the same function), result-producing instructions drawn from the pinned list of opcodes the lifter handles (golden/lift_subset.json, every one of them x4 in the sweep) and non-switch terminators. Oracle: convert is Ok; version word, capabilities in order and memory model preserved; the Debug rendering of types / constants / ops / function blocks is read by a small Debug-syntax reader: one entry per declaration / per result-producing non-phi block instruction, in order, entry head = the opcode's name, value atoms positionally equal to the DR operands (an id may appear as the raw word or as Token(k) with k the index of the referenced type / constant declaration); control mask, result type token, block count, each block's terminator and phi result types as block arguments. non-trivial = module with >= 4 types, a composite, a function with >= 2 blocks, a phi and >= 4 lifted operations (sweep: every case); distinct = hash of the rendered module.",
             assumptions: vec!["the structured representation is documented as under development: the supported subset is pinned (opcodes and id-operand roles) from the pinned tree; an opcode leaving the subset is a failure of the sweep".into()],
             trusted_base: vec!["Debug-syntax reader".into(), "golden/lift_subset.json".into()],
         },
